@@ -165,7 +165,7 @@ def run(ctx):
                               "filter= / buffer_filters is not applied once to the whole content without defaults and page filters", tags=["c02.filterattr"])
 
     # ---- 3. the expression scanner on spellings with a known split ---------------------------------------
-    n_sp = 2500 if tier == "quick" else 60000
+    n_sp = 2500 if tier == "quick" else 200000
     sreq, scases = [], []
     for _ in range(n_sp):
         text, parts = gen_expression(rng)
